@@ -47,6 +47,12 @@ def gate(t: T):
 
 
 def check(repo: Repo, run: Run) -> None:
+    # a composite trace is computed from "the records of its window": that the window of an END is exactly the records of
+    # the thread from the most recent START of that code is the pairing machine's contract (C04 K3-K5)
+    from .c09 import window_obligations
+    window_obligations(repo, run, ("K3", "K4", "K5"),
+                       "the window handed to a composite decoder then holds records from outside the START..END interval (or "
+                       "lacks some from inside it)")
     D = decoders.Decoders(repo)
 
     # ------------------------------------------------------------------ R1 page fault
